@@ -564,6 +564,26 @@ func forcedSorted(enc *json.Encoder, sc int) int {
 		}
 		quiesce()
 		r.gate.ReleaseAll()
+	case 3:
+		// as 2, but the unlocked callback is itself held (by a subscriber of HeaviestElement) between moving the element
+		// and updating LightestElement; Add(3) returns, Delete(3) runs under the mutex, then the callback finishes
+		x.s.HeaviestElement().OnUpdate(func(_, _ int) { r.gate.Wait("hi-cb") })
+		r.gate.Hold("w-sub-3")
+		r.note("thread 1 calls SortedSet.Add(3) and is held when its OnUpdate on weight(3) returns (before the unsubscribe function is stored)")
+		r.spawn(1, func() { x.member(3, true) })
+		quiesce()
+		r.gate.Free("w-sub-3")
+		r.gate.Hold("hi-cb")
+		r.note("thread 2 calls weight(3).Set(2): its callback runs WITHOUT the set mutex and is held inside HeaviestElement's notification")
+		r.spawn(2, func() { r.writeVar(x.w[2], 3, 2, false) })
+		quiesce()
+		r.gate.Free("hi-cb")
+		r.note("Add(3) continues and returns; thread 3 calls SortedSet.Delete(3); then thread 2's callback continues")
+		r.gate.Release("w-sub-3")
+		_ = sched.Quiesce(2 * time.Second)
+		r.spawn(3, func() { x.member(3, false) })
+		quiesce()
+		r.gate.ReleaseAll()
 	case 2:
 		r.gate.Hold("w-sub-3")
 		r.note("thread 1 calls SortedSet.Add(3) and is held when its OnUpdate on weight(3) returns; thread 2 then calls weight(3).Set(2)")
@@ -815,6 +835,7 @@ func derivedRun(args []string) int {
 		{"sorted-0", func() int { return forcedSorted(enc, 0) }},
 		{"sorted-1", func() int { return forcedSorted(enc, 1) }},
 		{"sorted-2", func() int { return forcedSorted(enc, 2) }},
+		{"sorted-3", func() int { return forcedSorted(enc, 3) }},
 		{"waitgroup-0", func() int { return forcedWaitGroup(enc, 0) }},
 		{"waitgroup-1", func() int { return forcedWaitGroup(enc, 1) }},
 	} {
